@@ -102,15 +102,15 @@ func c05HostileHostnames() []string {
 		"localhost", "lan", "printer.lan", "arpa", "in-addr.arpa",
 		// total lengths around the limits: netutil accepts up to 253; with ".lan." the
 		// wire form has len+6 octets and must not exceed 255
-		l63 + "." + l63 + "." + l63 + "." + strings.Repeat("e", 57),  // 249
-		l63 + "." + l63 + "." + l63 + "." + strings.Repeat("e", 58),  // 250
-		l63 + "." + l63 + "." + l63 + "." + strings.Repeat("e", 61),  // 253
-		l63 + "." + l63 + "." + l63 + "." + strings.Repeat("e", 62),  // 254
-		l63 + "." + l63 + "." + l63 + "." + l63,                      // 255
-		l62 + "." + l62 + "." + l62 + "." + l62,                      // 251
-		strings.Repeat("f.", 120) + "f",                              // 241, 121 labels
-		strings.Repeat("g.", 126) + "g",                              // 253, 127 labels
-		strings.Repeat("h", 63) + "." + strings.Repeat("i", 64),      // second label too long
+		l63 + "." + l63 + "." + l63 + "." + strings.Repeat("e", 57), // 249
+		l63 + "." + l63 + "." + l63 + "." + strings.Repeat("e", 58), // 250
+		l63 + "." + l63 + "." + l63 + "." + strings.Repeat("e", 61), // 253
+		l63 + "." + l63 + "." + l63 + "." + strings.Repeat("e", 62), // 254
+		l63 + "." + l63 + "." + l63 + "." + l63,                     // 255
+		l62 + "." + l62 + "." + l62 + "." + l62,                     // 251
+		strings.Repeat("f.", 120) + "f",                             // 241, 121 labels
+		strings.Repeat("g.", 126) + "g",                             // 253, 127 labels
+		strings.Repeat("h", 63) + "." + strings.Repeat("i", 64),     // second label too long
 		strings.Repeat("j", 300),
 	}
 	return names
